@@ -101,3 +101,7 @@ pub mod methods;
 
 // -- User convenience / re-exports --
 pub mod prelude;
+
+// -- Verification-only access to crate-private pieces (off by default) --
+#[cfg(feature = "verif-hooks")]
+pub mod verif_hooks;
